@@ -3,6 +3,7 @@ package whispertool
 import (
 	"errors"
 	"fmt"
+	"io"
 	"os"
 	"sort"
 	"syscall"
@@ -113,8 +114,11 @@ func Open(filename string, opts ...Option) (*Whisper, error) {
 
 	w.fileBuf = filebuffer.New(w.file, st.Size(), w.pageSize)
 
-	if err := w.readHeader(); err != nil {
+	if err := w.readHeader(st.Size()); err != nil {
 		return nil, fmt.Errorf("readHeader: %s: %s", filename, err)
+	}
+	if st.Size() < w.header.ExpectedFileSize() {
+		return nil, fmt.Errorf("file too short: %s: got %d bytes, want %d bytes", filename, st.Size(), w.header.ExpectedFileSize())
 	}
 	return w, nil
 }
@@ -419,7 +423,7 @@ func (w *Whisper) putHeader() error {
 	return nil
 }
 
-func (w *Whisper) readHeader() error {
+func (w *Whisper) readHeader(fileSize int64) error {
 	buf := make([]byte, w.pageSize)
 	if _, err := w.fileBuf.ReadAt(buf[:metaSize], 0); err != nil {
 		return err
@@ -433,6 +437,9 @@ func (w *Whisper) readHeader() error {
 		}
 
 		wantSize := werr.WantedBufSize
+		if int64(wantSize) > fileSize {
+			return io.ErrUnexpectedEOF
+		}
 		if wantSize > len(buf) {
 			buf = make([]byte, wantSize)
 		}
